@@ -103,6 +103,38 @@ def run_child(variant, argv, tag, timeout, env_extra=None, race=False):
                 racelog=racelog, wall=time.time() - t0)
 
 
+def confirm_suspect(variant, cf, witness, tag):
+    """Run one witness alone under a CPU-time limit. Returns (exhausted | finished | unknown, text, input hex)."""
+    import resource
+    cpu = int(cf.get("cpu", 200))
+    whex = ""
+    try:
+        b = open(witness, "rb").read()
+        n = int.from_bytes(b[:4], "little")
+        whex = b[8:8 + n].hex()
+    except (OSError, ValueError):
+        return "unknown", "witness %s unreadable" % witness, ""
+    logp = os.path.join(LOGS, tag + ".confirm.log")
+    env = dict(os.environ, GOMAXPROCS="2")
+
+    def lim():
+        resource.setrlimit(resource.RLIMIT_CPU, (cpu, cpu + 10))
+    with open(logp, "w") as lf:
+        p = subprocess.Popen([os.path.join(BUILD, variant), cf["cmd"], witness], stdout=lf, stderr=subprocess.STDOUT, env=env, cwd=ROOT, preexec_fn=lim)
+        try:
+            rc = p.wait(timeout=cpu * 20 + 600)   # watchdog only: its firing decides nothing
+        except subprocess.TimeoutExpired:
+            p.kill()
+            p.wait()
+            return "unknown", "the confirmation run got less than %d CPU-seconds in %d s of wall clock" % (cpu, cpu * 20 + 600), whex
+    ru = resource.getrusage(resource.RUSAGE_CHILDREN)
+    tail = open(logp, errors="replace").read()[-4000:]
+    if "SIGXCPU" in tail or rc in (-24, -9, 128 + 24, 128 + 9):
+        return "exhausted", ("a %d-byte input, decoded alone, used up %d CPU-seconds without finishing (inputs of this size take "
+                             "well under a millisecond)" % (len(whex) // 2, cpu)), whex
+    return "finished", "the witness, decoded alone, finished (rc=%s) within %d CPU-seconds; log %s" % (rc, cpu, logp), whex
+
+
 def classify_crash(tail, rc):
     """Who killed a child that left no result? Returns (who, reason) with who in zerolog | harness | timeout | unknown.
     The crashing goroutine is the first one printed after the panic / fatal error line; its innermost frame outside
@@ -283,6 +315,27 @@ def run_check(pid, tier, seed):
         harness_err = True
         log("ERROR property=%s child %s produced no result (rc=%s, %s: %s); see %s" % (pid, r["tag"], r["rc"], who, reason, r["log"]))
         log(tail[-3000:])
+    # suspects: a child stopped because one input ran for very long (wall clock, not a verdict). Decide on CPU time:
+    # the witness is run alone under RLIMIT_CPU; exhausting a budget that is >= 10^5 times what any input of that
+    # size needs is reported as non-termination, finishing within it leaves the suspect inconclusive.
+    n_confirm = 0
+    for r, (st, _argv, _tag) in zip(results, jobs):
+        wit = ((r["res"] or {}).get("extra") or {}).get("suspect_witness")
+        cf = st.get("confirm")
+        if not wit or not cf:
+            continue
+        n_confirm += 1
+        if n_confirm > 2:   # every shard tends to meet the same defect: two confirmations are enough
+            continue
+        verdict, info, whex = confirm_suspect(st["variant"], cf, wit, r["tag"])
+        if verdict == "exhausted":
+            r["res"].setdefault("violations", []).append(dict(
+                sig="non-termination", desc="%s; witness input %s" % (info, whex[:200]),
+                replay=dict(check=pid, input_full_hex=whex, witness=wit)))
+            r["res"]["n_violations"] = r["res"].get("n_violations", 0) + 1
+            r["res"]["inconclusive"] = [s for s in r["res"].get("inconclusive", []) if not s.startswith("suspect-timeout")]
+        else:
+            r["res"].setdefault("inconclusive", []).append("suspect not confirmed: " + info)
     agg = merge(results)
     # race reports
     races = []
